@@ -120,8 +120,10 @@ SECTIONS {
 }
 ASSERT(ALIGNOF(.text) == ALIGNOF(.text), "expected alignment")
 '''
-VERSION_SCRIPT = '''VER1 { global: seed_fn; extern "C++" { "foo()"; }; local: *; };
+# three nodes in a parent chain; the parent references lie within the first 24 tokens
+VERSION_SCRIPT = '''VER1 { global: seed_fn; local: *; };
 VER2 { global: other*; } VER1;
+VER3 { global: _start; extern "C++" { "foo()"; }; } VER2;
 '''
 EXPORT_LIST = '''{ seed_fn; "quoted"; extern "C++" { a*; }; _start; };
 '''
@@ -569,7 +571,18 @@ def mutate_text(data, locus, op):
            "quote": b'"', "open-comment": b"/*", "huge-number": b"99999999999999999999999999", "hex-prefix": b"0x",
            "star": b"*"}
     t = list(toks)
-    if op == "delete":
+    if op.startswith("xref-"):
+        if not re.fullmatch(rb"[A-Za-z_.][A-Za-z0-9_.+-]*", toks[i]):
+            return None
+        words = []
+        for w in toks:
+            if re.fullmatch(rb"[A-Za-z_.][A-Za-z0-9_.+-]*", w) and w not in words:
+                words.append(w)
+        k = int(op[5:])
+        if k >= len(words):
+            return None
+        t[i] = words[k]
+    elif op == "delete":
         t[i] = b""
     elif op == "duplicate":
         t[i] = toks[i] + b" " + toks[i]
